@@ -67,8 +67,28 @@ class RunawayRun(Exception):
     pass
 
 
+_SUB = {}
+
+
+def _user_subclass(cls):
+    """a trivial user subclass of a public element class (a user adding a part number, say)"""
+    if cls not in _SUB:
+        _SUB[cls] = type('My' + cls.__name__, (cls,), {'part_number': 'PN-1'})
+    return _SUB[cls]
+
+
+class _MoProxy:
+    def __init__(self, mo):
+        self._mo = mo
+
+    def __getattr__(self, name):
+        return _user_subclass(getattr(self._mo, name))
+
+
 def make_element(e):
     mo = g().mo
+    if e.get('subclass'):
+        mo = _MoProxy(mo)
     t = e['type']
     if t == 'motor':
         kw = {}
@@ -296,6 +316,13 @@ def build(spec, hooks=True):
         for f_ in pre:
             f_()
         b.pt = G_.Powertrain(motor=b.motor)
+    if spec.get('deepcopy'):
+        # the user works on a deep copy of the assembled model (a variant study): the copy is the model from here on
+        import copy as _copy
+        b.original_pt = b.pt
+        b.pt = _copy.deepcopy(b.pt)
+        b.elements = list(b.pt.elements)
+        b.motor, b.last = b.elements[0], b.elements[-1]
     for f_ in post:
         f_()
     if spec.get('forget_load'):
